@@ -73,11 +73,11 @@ func sshSpecial(cc *lab.CliConn, s gen.Service, sc scenario, c int) (reply int) 
 			go ssh.DiscardRequests(rq)
 			withTimeout(2*time.Second, func() { ch.SendRequest("shell", r.Bool(), nil) })
 			var wg sync.WaitGroup
-			for j := 0; j < 40; j++ {
+			for j := 0; j < 150; j++ {
 				wg.Add(1)
 				go func() {
 					defer wg.Done()
-					withTimeout(time.Second, func() {
+					withTimeout(2*time.Second, func() {
 						if c2, r2, e2 := conn.OpenChannel("session", nil); e2 == nil {
 							go ssh.DiscardRequests(r2)
 							_ = c2
